@@ -65,7 +65,7 @@ P = {
          "Documented preconditions of the std operations the crate builds on are represented only through the model's ledger and the absence of aborts in the debug profile (correspondence only)."),
  "C18": ("Coq proof (crash points are part of the environment and of the programs: invariants, ledgers and progress theorems quantify over them) + fault injection at every crash point on the crate with hang detection and drop ledger",
          PRE + "c18_no_duplicate (all kinds, every crash point of the wrapped next() and of the closures): no position is delivered twice. c18_others_return_known_kinds / c18_others_return_wrapped_iterator: the C09 theorems, whose environments include the crash points. c18_ledger_known_kinds (run and end of life) and c18_ledger_wrapped_iterator (run; the end of life is c08_wrapped_iterator_end_of_life, which assumes the buffered iterators were dropped): chk_C08. On the crate the generator injects a panic at every position, the scheduler detects calls that never return, chk_C08, chk_C02 and 'no position twice' judge the traces. c18_no_duplicate assumes `fused e`; c18_no_duplicate_any_iterator: no position is moved out to two callers for any wrapped iterator, fused or not, at every crash point.",
-         "Panics of an element's clone are exercised on the crate only through the closure crash points, not as a separate crash kind of the model (partial on that clause)."),
+         "A panic of the k-th clone of an element is a crash kind of the harness only: a checker-only stream on the crate (cloned() over slices and over wrapped iterators of references; index fidelity, end permanence, source untouched, hang detection); the model has no such crash point (partial on that clause)."),
  "C19": ("Coq proof (family of iterators as a list of configurations: non-interference; clone copies the position; a clone behaves like an iterator, by simulation; ledger for the borrowed source) + multi-iterator histories on the crate projected onto single iterators",
          PRE + "c19_iterators_are_independent (no hypothesis): in any interleaved history of steps and clonings the configuration of each iterator is the one it reaches alone under the steps taken on it -- true by construction of the family model. c19_clone_starts_at_current_position. c19_clone_behaves_like_an_iterator (slices and ranges, clone taken at any position k < 2^64): no position twice, nothing below min(k, len), index fidelity, chunk contract, end permanence -- the clone's run is the tail of a run from position 0 in which an extra thread consumed the prefix. c19_source_left_intact / c19_borrowed_source_untouched: no event reports a destroyed element. On the crate: histories over 1-2 fresh iterators and the clones that 1-3 threads make at arbitrary points; every single iterator's history is projected out and replayed on the single-iterator model from the position the clone read; a clone must read the original's counter exactly once, start there and write nothing to the original; the address of every delivered reference is compared with the collection's element; the collection is re-read; a run-time probe clones through a shared reference with a non-Clone element type.",
          "That references point at the original elements and that the collection is unmodified and usable afterwards are decided on the crate only (correspondence)."),
